@@ -430,10 +430,14 @@ FixedVArray<T>::setitem_scalar_mask (const FixedArray<int>& mask, const FixedArr
 
     if (_indices)
     {
+        // The mask is as long as this reference or (non-strict match)
+        // as long as the array it refers to.
+        const bool unmaskedMask = (size_t) mask.len() != len;
         for (size_t i = 0; i < len; ++i)
         {
-            // We don't need to actually look at 'mask' because
-            // match_dimensions has already forced some expected condition.
+            if (!mask[unmaskedMask ? raw_ptr_index(i) : i])
+                continue;
+
             std::vector<T> &d =_ptr[raw_ptr_index(i)*_stride];
             if (data.len() != static_cast<Py_ssize_t>(d.size()))
                 throw std::invalid_argument("FixedVArray::setitem: length of data does not match length of array element");
